@@ -145,12 +145,14 @@ def make_fault(opname, fdepth=None, shard=None, kmax=600):
         if fdepth is not None:
             depth = fdepth
         assume(0 <= depth <= 2)
-        assume(1 <= kf <= kmax)
-        if shard is not None:
+        assume(0 <= kf <= kmax)  # kf == 0: no fault (the warm-up runs it first so that lazily generated methods exist)
+        if shard is not None and kf != 0:
             assume(kf % shard[1] == shard[0])
         reset_globals(bool(user_entry))
         val = nested(depth, v)
-        instrument.arm(kf, "fault")
+        instrument.STATE["fired"] = None
+        if kf != 0:
+            instrument.arm(kf, "fault")
         try:
             do_op(opname, val, v)
             exc = None
@@ -187,8 +189,8 @@ def make_preempt(opname, fdepth=None, shard=None, kmax=600):
         if fdepth is not None:
             depth = fdepth
         assume(0 <= depth <= 2)
-        assume(1 <= k <= kmax)
-        if shard is not None:
+        assume(0 <= k <= kmax)  # k == 0: no preemption
+        if shard is not None and k != 0:
             assume(k % shard[1] == shard[0])
         reset_globals(bool(user_entry))
         val = nested(depth, v)
@@ -202,7 +204,9 @@ def make_preempt(opname, fdepth=None, shard=None, kmax=600):
             except Exception as ex:  # recorded, judged below (WouldBlock is a BaseException and propagates)
                 out["b_exc"] = ex
 
-        instrument.arm(k, "preempt", callback=thread_b)
+        instrument.STATE["fired"] = None
+        if k != 0:
+            instrument.arm(k, "preempt", callback=thread_b)
         try:
             do_op(opname, val, v)
             exc = None
@@ -238,10 +242,14 @@ def obligations(tier):
     kmax = 420 if tier == "quick" else 900
     for opname in ("deepcopy", "with") if tier == "quick" else OPS:
         for d in depths:
+            if tier == "quick" and (opname, d) not in (("deepcopy", 1), ("with", 0)):
+                continue
             for sh in range(NSH):
-                obs.append(Ob(f"C20.fault.{opname}.depth{d}.shard{sh}of{NSH}", make_fault(opname, d, (sh, NSH), kmax), [(u, d, 5, kf) for u in (False, True) for kf in (sh + NSH, sh + 5 * NSH, sh + 40 * NSH)], f"E2-fault: {opname} of a module-bearing value (nesting depth {d}) aborted at the kf-th executed statement of library code, kf symbolic in [1,{kmax}] with kf % {NSH} == {sh}; baseline absent / user reducer symbolic; table checked after the abort has unwound and after one later copy", expect=set(), timeout=T, per_path=90, group=f"C20.fault.{opname}"))
+                obs.append(Ob(f"C20.fault.{opname}.depth{d}.shard{sh}of{NSH}", make_fault(opname, d, (sh, NSH), kmax), [(u, d, 5, kf) for u in (False, True) for kf in (0, 0, sh + NSH, sh + 5 * NSH, sh + 40 * NSH)], f"E2-fault: {opname} of a module-bearing value (nesting depth {d}) aborted at the kf-th executed statement of library code, kf symbolic in [1,{kmax}] with kf % {NSH} == {sh}; baseline absent / user reducer symbolic; table checked after the abort has unwound and after one later copy", expect=set(), timeout=T, per_path=90, group=f"C20.fault.{opname}"))
     for opname in ("deepcopy", "construct") if tier == "quick" else OPS:
         for d in depths:
+            if tier == "quick" and (opname, d) not in (("deepcopy", 1), ("construct", 0)):
+                continue
             for sh in range(NSH):
-                obs.append(Ob(f"C20.preempt.{opname}.depth{d}.shard{sh}of{NSH}", make_preempt(opname, d, (sh, NSH), kmax), [(u, d, 5, k) for u in (False, True) for k in (sh + NSH, sh + 5 * NSH, sh + 40 * NSH)], f"E2-preempt (LIFO-nested, 2 threads): thread A performs {opname} on a module-bearing value (depth {d}) and is preempted at its k-th executed library statement (k symbolic in [1,{kmax}], k % {NSH} == {sh}); thread B runs two complete copies of module-bearing values there; a B that needs a lock held by A = infeasible schedule (skipped)", expect=set(), timeout=T, per_path=90, group=f"C20.preempt.{opname}"))
+                obs.append(Ob(f"C20.preempt.{opname}.depth{d}.shard{sh}of{NSH}", make_preempt(opname, d, (sh, NSH), kmax), [(u, d, 5, k) for u in (False, True) for k in (0, 0, sh + NSH, sh + 5 * NSH, sh + 40 * NSH)], f"E2-preempt (LIFO-nested, 2 threads): thread A performs {opname} on a module-bearing value (depth {d}) and is preempted at its k-th executed library statement (k symbolic in [1,{kmax}], k % {NSH} == {sh}); thread B runs two complete copies of module-bearing values there; a B that needs a lock held by A = infeasible schedule (skipped)", expect=set(), timeout=T, per_path=90, group=f"C20.preempt.{opname}"))
     return obs
